@@ -210,6 +210,10 @@ type IRCServer struct {
 	// the session id.
 	sessions   map[robust.Id]*Session
 	sessionsMu *sync.RWMutex
+	// throttleMu protects the throttlingExponent of all sessions, which is
+	// modified by ThrottleUntil while holding only the read lock of
+	// sessionsMu. It is always locked last.
+	throttleMu *sync.Mutex
 
 	// serverSessions is a slice that contains the IDs of all sessions that
 	// represent server-to-server connections, so that they can efficiently be
@@ -253,6 +257,7 @@ func NewIRCServer(networkname string, serverCreation time.Time) *IRCServer {
 		nicks:           make(map[lcNick]*Session),
 		sessions:        make(map[robust.Id]*Session),
 		sessionsMu:      &sync.RWMutex{},
+		throttleMu:      &sync.Mutex{},
 		lastProcessedMu: &sync.RWMutex{},
 		ServerPrefix:    &irc.Prefix{Name: networkname},
 		ServerCreation:  serverCreation,
@@ -607,9 +612,11 @@ func (i *IRCServer) ThrottleUntil(sessionid robust.Id) time.Time {
 	if cooloff == 0 {
 		return time.Time{}
 	}
-	// throttlingExponent is modified below, so the write lock is required.
-	i.sessionsMu.Lock()
-	defer i.sessionsMu.Unlock()
+	i.sessionsMu.RLock()
+	defer i.sessionsMu.RUnlock()
+	// throttlingExponent is modified below.
+	i.throttleMu.Lock()
+	defer i.throttleMu.Unlock()
 
 	if s, ok := i.sessions[sessionid]; ok && !s.Server {
 		// Reset throttlingExponent when the session was idle long enough.
@@ -643,6 +650,8 @@ func (i *IRCServer) LastPostMessage(sessionid robust.Id) uint64 {
 func (i *IRCServer) GetSessions() map[robust.Id]Session {
 	i.sessionsMu.RLock()
 	defer i.sessionsMu.RUnlock()
+	i.throttleMu.Lock()
+	defer i.throttleMu.Unlock()
 	result := make(map[robust.Id]Session, len(i.sessions))
 	for id, session := range i.sessions {
 		result[id] = *session
